@@ -236,6 +236,8 @@ def run(ctx):
         t2, cf2 = tlcmod.gen_mc(ctx.work, "QuadHistory", "MC_QH_dev", dict(base, KeyedByPrecision=False), invariants=["RuleInCallPrecision"])
         ctx.expect_violation(t2, cf2, inv="RuleInCallPrecision", label="deviation KeyedByPrecision", workers=4, timeout=300)
         ctx.check_proof("QuadHistory_proofs")      # histories of any length
+        from vlib import resulthistory
+        nhist += resulthistory.replay(ctx, ["quad", "mcquad"], "quad")
         full = sorted([h_["hist"] for h_ in hnodes.values() if len(h_["hist"]) == 3], key=lambda h_: [(c_["call"]["dtype"], c_["call"]["n"]) for c_ in h_])
         TD = {"f32": torch.float32, "f64": torch.float64}
         for hi, hist in enumerate(full):
